@@ -868,9 +868,13 @@ def d9(prog, ctx):
     for q, f in iq.functions.items():
         for st in walk_no_nested(f):
             if isinstance(st, ast.Assign) and any(dotted(t) == "args.multimap_strategy" for t in st.targets):
-                for x in ast.walk(st.value):
-                    if isinstance(x, ast.Constant) and isinstance(x.value, str):
-                        values.setdefault(x.value, st)
+                vals = [st.value]
+                if isinstance(st.value, ast.Name):
+                    vals = [d.value for d in walk_no_nested(f) if isinstance(d, ast.Assign) and any(dotted(t) == st.value.id for t in d.targets)] or vals
+                for v_ in vals:
+                    for x in ast.walk(v_):
+                        if isinstance(x, ast.Constant) and isinstance(x.value, str):
+                            values.setdefault(x.value, st)
                 if isinstance(st.value, ast.Attribute) and dotted(st.value).startswith("args."):
                     values.setdefault("<user option %s>" % dotted(st.value), st)
     if not values:
